@@ -3,6 +3,7 @@ package main
 // Helpers shared by the C03 and C10 rules (the security handshake in security/auth.go).
 
 import (
+	"fmt"
 	"go/constant"
 	"go/token"
 	"go/types"
@@ -43,6 +44,7 @@ type c03Anchors struct {
 	bitToMethod, methodToBit                                                               *ssa.Function
 	setKey, isEnc, setEnc                                                                  *ssa.Function
 	ok                                                                                     bool
+	enc                                                                                    *c03Enc // summaries "helper leaves Encryption freshly copied from the stream" (set by the rules that need them)
 }
 
 func (c *Ctx) constStr(rule, rel, name string) string {
@@ -58,6 +60,7 @@ func (c *Ctx) constStr(rule, rel, name string) string {
 
 func (c *Ctx) handshakeAnchors(rule string) *c03Anchors {
 	A := &c03Anchors{ok: true}
+	c03Prog = c.Prog
 	fld := func(t, f string) *types.Var {
 		v := c.needField(rule, "security", t, f)
 		if v == nil {
@@ -148,11 +151,18 @@ func c03LoadOf(v ssa.Value, f *types.Var) (ssa.Value, bool) {
 
 // localCfg: every origin of v is a pointer to the endpoint's OWN SecurityConfig.
 func (A *c03Anchors) localCfg(fn *ssa.Function, v ssa.Value, role int) bool {
-	os := origins(fn, v)
+	return A.localCfgF(c03Root(fn), v, role)
+}
+
+// localCfgF is localCfg across helpers (a configuration handed to a helper as an argument, or
+// produced by a same-module accessor, is followed to where it comes from).
+func (A *c03Anchors) localCfgF(fr *c03Frame, v ssa.Value, role int) bool {
+	os := c03OriginsF(fr, v, nil)
 	if len(os) == 0 {
 		return false
 	}
-	for _, o := range os {
+	for _, lf := range os {
+		o := lf.v
 		if _, ok := c03LoadOf(o, A.aConfig); ok {
 			continue
 		}
@@ -168,9 +178,9 @@ func (A *c03Anchors) localCfg(fn *ssa.Function, v ssa.Value, role int) bool {
 			// perCmd := a.ServerConfigForCommand(cmd)
 			if call, idx := originCall(o); call != nil && idx == 0 && !call.Common().IsInvoke() && call.Common().StaticCallee() == nil {
 				all := true
-				cos := origins(fn, call.Common().Value)
+				cos := c03OriginsF(lf.fr, call.Common().Value, nil)
 				for _, co := range cos {
-					if _, ok := c03LoadOf(co, A.aPerCmd); !ok {
+					if _, ok := c03LoadOf(co.v, A.aPerCmd); !ok {
 						all = false
 					}
 				}
@@ -189,47 +199,72 @@ func (A *c03Anchors) localCfg(fn *ssa.Function, v ssa.Value, role int) bool {
 
 // localLevel: v is (a copy of) the local policy's level field `field`.
 func (A *c03Anchors) localLevel(fn *ssa.Function, v ssa.Value, field *types.Var, role int) bool {
-	os := origins(fn, stripConv(v))
+	return A.localLevelF(c03Root(fn), v, field, role)
+}
+
+func (A *c03Anchors) localLevelF(fr *c03Frame, v ssa.Value, field *types.Var, role int) bool {
+	os := c03OriginsF(fr, stripConv(v), nil)
 	if len(os) == 0 {
 		return false
 	}
-	for _, o := range os {
-		base, ok := c03LoadOf(o, field)
-		if !ok || !A.localCfg(fn, base, role) {
+	for _, lf := range os {
+		base, ok := c03LoadOf(lf.v, field)
+		if !ok || !A.localCfgF(lf.fr, base, role) {
 			return false
 		}
 	}
 	return true
 }
 
+// levelAtom: condition atom a (negation stripped) compares the local policy level `field` with
+// REQUIRED; reqOnTrue tells on which outcome the level equals REQUIRED. The local policy is the one
+// of the outermost function of the frame chain.
+func (A *c03Anchors) levelAtom(fr *c03Frame, a Atom, field *types.Var) (reqOnTrue, ok bool) {
+	if a.Op != token.EQL && a.Op != token.NEQ {
+		return false, false
+	}
+	var lv ssa.Value
+	if s, isC := constString(a.Y); isC && s == A.required {
+		lv = a.X
+	} else if s, isC := constString(a.X); isC && s == A.required {
+		lv = a.Y
+	} else {
+		return false, false
+	}
+	if !A.localLevelF(fr, lv, field, A.roleOf(fr.root())) {
+		return false, false
+	}
+	return a.Op == token.EQL, true
+}
+
+// notRequiredAtom is the c03MustPass recogniser of "the local level `field` differs from REQUIRED".
+func (A *c03Anchors) notRequiredAtom(fr *c03Frame, a Atom, field *types.Var) (onTrue, onFalse bool) {
+	if reqOnTrue, ok := A.levelAtom(fr, a, field); ok {
+		return !reqOnTrue, reqOnTrue
+	}
+	return false, false
+}
+
 // levelEdges: the edges of fn on which the local policy level `field` is known to differ from
 // REQUIRED (notReq) resp. to equal it (req). Recognises ==/!= against the constant in if/switch form.
 func (A *c03Anchors) levelEdges(fn *ssa.Function, field *types.Var, role int) (notReq, req []Edge) {
+	fr := c03Root(fn)
 	for _, b := range fn.Blocks {
 		ifi := blockIf(b)
 		if ifi == nil {
 			continue
 		}
 		a := condAtom(ifi.Cond)
-		if a.Op != token.EQL && a.Op != token.NEQ {
+		neg := a.Neg
+		a.Neg = false
+		reqOnTrue, ok := A.levelAtom(fr, a, field)
+		if !ok {
 			continue
 		}
-		var lv ssa.Value
-		if s, ok := constString(a.Y); ok && s == A.required {
-			lv = a.X
-		} else if s, ok := constString(a.X); ok && s == A.required {
-			lv = a.Y
-		} else {
-			continue
+		if neg {
+			reqOnTrue = !reqOnTrue
 		}
-		if !A.localLevel(fn, lv, field, role) {
-			continue
-		}
-		eq := a.Op == token.EQL
-		if a.Neg {
-			eq = !eq
-		}
-		if eq {
+		if reqOnTrue {
 			req = append(req, Edge{b, 0})
 			notReq = append(notReq, Edge{b, 1})
 		} else {
@@ -253,14 +288,14 @@ func c03StoresTo(fn *ssa.Function, f *types.Var) []*ssa.Store {
 	return out
 }
 
-// isCallOf: every origin of v is result #0 of a static call to g.
+// isCallOf: every origin of v (value helpers followed) is result #0 of a static call to g.
 func c03AllOriginsCallTo(fn *ssa.Function, v ssa.Value, g *ssa.Function) bool {
-	os := origins(fn, v)
+	os := c03OriginsF(c03Root(fn), v, func(h *ssa.Function) bool { return h == g })
 	if len(os) == 0 {
 		return false
 	}
-	for _, o := range os {
-		call, idx := originCall(o)
+	for _, lf := range os {
+		call, idx := originCall(lf.v)
 		if call == nil || idx != 0 || calleeFn(call) != g {
 			return false
 		}
@@ -296,31 +331,86 @@ func c03AddCallSuccess(fn *ssa.Function, cs ssa.CallInstruction, cuts *Cuts) {
 	cuts.AddInstrs(cs)
 }
 
-// attrReads lists (attribute name -> call) for every classad Evaluate*/Lookup call in fn with a
-// constant name whose receiver satisfies recv (nil = any).
-func c03AttrCalls(fn *ssa.Function, method func(string) bool, recv func(ssa.Value) bool) map[string][]ssa.CallInstruction {
-	out := map[string][]ssa.CallInstruction{}
-	allInstrs(fn, func(_ *ssa.BasicBlock, _ int, in ssa.Instruction) {
-		call, ok := in.(ssa.CallInstruction)
-		if !ok {
+// c03AttrCalls lists (attribute name -> calls) for every classad Evaluate*/Lookup/Set call in fn and
+// in the same-package helpers it reaches whose attribute name is a constant - written at the call, or
+// handed to the helper as an argument (each call site of a helper is visited with its own arguments).
+// recv (nil = any) filters on the receiver, given with the frame it is evaluated in.
+func c03AttrCalls(fn *ssa.Function, method func(string) bool, recv func(fr *c03Frame, v ssa.Value) bool) map[string][]c03CallAt {
+	return c03AttrCallsF(c03Root(fn), method, recv)
+}
+
+// c03BuiltAdCalls: c03AttrCalls restricted to the ClassAd the builder function fn returns (a Set on
+// another ad built on the way - e.g. a session policy - is not an attribute of the ad it publishes).
+func c03BuiltAdCalls(fn *ssa.Function, method func(string) bool) map[string][]c03CallAt {
+	root := c03Root(fn)
+	ad := c03ReturnedValue(fn, 0)
+	if ad == nil {
+		return c03AttrCallsF(root, method, nil)
+	}
+	return c03AttrCallsF(root, method, c03SameAs(root, ad))
+}
+
+func c03AttrCallsF(root *c03Frame, method func(string) bool, recv func(fr *c03Frame, v ssa.Value) bool) map[string][]c03CallAt {
+	out := map[string][]c03CallAt{}
+	seen := map[string]bool{}
+	var walk func(fr *c03Frame)
+	walk = func(fr *c03Frame) {
+		if k := fr.key(); seen[k] {
 			return
+		} else {
+			seen[k] = true
 		}
-		o := calleeObj(call)
-		if o == nil || o.Pkg() == nil || o.Pkg().Name() != "classad" || !method(o.Name()) {
-			return
-		}
-		args := callArgs(call)
-		if len(args) < 2 {
-			return
-		}
-		if recv != nil && !recv(args[0]) {
-			return
-		}
-		if name, ok := constString(args[1]); ok {
-			out[name] = append(out[name], call)
-		}
-	})
+		allInstrs(fr.fn, func(_ *ssa.BasicBlock, _ int, in ssa.Instruction) {
+			call, ok := in.(ssa.CallInstruction)
+			if !ok {
+				return
+			}
+			if o := calleeObj(call); o != nil && o.Pkg() != nil && o.Pkg().Name() == "classad" && method(o.Name()) {
+				args := callArgs(call)
+				if len(args) < 2 || (recv != nil && !recv(fr, args[0])) {
+					return
+				}
+				if name, ok := c03ConstStringF(fr, args[1]); ok {
+					out[name] = append(out[name], c03CallAt{fr, call})
+				} else {
+					out[c03UnresolvedAttr] = append(out[c03UnresolvedAttr], c03CallAt{fr, call})
+				}
+				return
+			}
+			h := calleeFn(call)
+			if h == nil || !c03SamePkg(h, fr.root()) {
+				return
+			}
+			if sub := fr.enter(call); sub != nil {
+				walk(sub)
+			}
+		})
+	}
+	walk(root)
 	return out
+}
+
+// c03UnresolvedAttr is the key under which c03AttrCalls files the calls whose attribute name it could
+// not resolve to a constant (the caller decides whether that leaves its question undecided).
+const c03UnresolvedAttr = "\x00unresolved"
+
+// c03ConstStringF: v is a string constant, possibly a helper's parameter bound to one by its caller.
+func c03ConstStringF(fr *c03Frame, v ssa.Value) (string, bool) {
+	for i := 0; i < 8; i++ {
+		if s, ok := constString(v); ok {
+			return s, true
+		}
+		par, ok := stripConv(v).(*ssa.Parameter)
+		if !ok || fr.call == nil || fr.call.Common().IsInvoke() {
+			return "", false
+		}
+		k := c03ParamIndex(fr.fn, par)
+		if k < 0 || k >= len(fr.call.Common().Args) {
+			return "", false
+		}
+		fr, v = fr.up, fr.call.Common().Args[k]
+	}
+	return "", false
 }
 
 func c03IsEvaluate(n string) bool {
@@ -414,49 +504,687 @@ func (c *Ctx) c03SpilledError(fn *ssa.Function, ret *ssa.Return, ei int) bool {
 }
 
 // ---------------------------------------------------------------------------
-// must-pass with same-package helper inlining (memoised; the shared satisfyingCuts explores every
-// module callee of every call, which is too slow for the big handshake functions)
+// frames: a function analysed as the callee of a call (helper following with parameter mapping)
 
-type c03MustPass struct {
-	c      *Ctx
-	pkgOf  *ssa.Function                           // helpers are inlined only within this function's package
-	edges  func(f *ssa.Function) []Edge            // satisfying edges of f
-	instrs func(f *ssa.Function) []ssa.Instruction // satisfying instructions of f
-	memo   map[*ssa.Function]int                   // 1 active, 2 holds, 3 does not hold
+// c03Frame is function fn analysed in the context of the call that entered it (call == nil, up == nil:
+// fn is analysed on its own). Helpers are followed to InlineDepth, never recursively.
+type c03Frame struct {
+	fn   *ssa.Function
+	call ssa.CallInstruction
+	up   *c03Frame
+	kids map[ssa.CallInstruction]*c03Frame
 }
 
-// cuts: the edges/instructions of f that satisfy the obligation, including successful calls of
-// same-package helpers that satisfy it on every success return of their own.
-func (m *c03MustPass) cuts(f *ssa.Function, depth int) *Cuts {
+func c03Root(fn *ssa.Function) *c03Frame { return &c03Frame{fn: fn} }
+
+// key identifies the frame by its chain of call sites (memoisation).
+func (fr *c03Frame) key() string {
+	k := ""
+	for f := fr; f != nil; f = f.up {
+		k += fmt.Sprintf("%p/%p;", f.fn, f.call)
+	}
+	return k
+}
+
+// root is the outermost function of the chain (it decides whose configuration is "local").
+func (fr *c03Frame) root() *ssa.Function {
+	f := fr
+	for f.up != nil {
+		f = f.up
+	}
+	return f.fn
+}
+
+// enter returns the frame of the static callee of call (a function, method or closure of the analysed
+// module with a body), nil when the call cannot be followed: dynamic, outside the module, recursive,
+// or deeper than InlineDepth.
+func (fr *c03Frame) enter(call ssa.CallInstruction) *c03Frame {
+	if k, ok := fr.kids[call]; ok {
+		return k
+	}
+	g := calleeFn(call)
+	if g == nil || g.Blocks == nil || fnPkg(g) == nil || !inModule(fnPkg(g).Path()) {
+		return nil
+	}
+	depth := 0
+	for f := fr; f != nil; f = f.up {
+		if f.fn == g {
+			return nil
+		}
+		depth++
+	}
+	if depth > InlineDepth {
+		return nil
+	}
+	k := &c03Frame{fn: g, call: call, up: fr}
+	if fr.kids == nil {
+		fr.kids = map[ssa.CallInstruction]*c03Frame{}
+	}
+	fr.kids[call] = k
+	return k
+}
+
+// c03Leaf is a leaf origin and the frame it lives in.
+type c03Leaf struct {
+	fr *c03Frame
+	v  ssa.Value
+}
+
+func c03ParamIndex(fn *ssa.Function, p *ssa.Parameter) int {
+	for i, q := range fn.Params {
+		if q == p {
+			return i
+		}
+	}
+	return -1
+}
+
+// c03OriginsF is origins() across helpers: result #i of a call to a followable function is replaced by
+// the origins of the callee's i-th returned expressions (value helper), a parameter of a followed
+// callee by the origins of the call's argument in the caller, a captured variable of a closure by the
+// values stored into the captured cell. stop(g) keeps calls to g as leaves (functions the rule wants
+// to see, e.g. an accessor it recognises).
+func c03OriginsF(fr *c03Frame, v ssa.Value, stop func(*ssa.Function) bool) []c03Leaf {
+	var out []c03Leaf
+	seen := map[c03Leaf]bool{}
+	var walk func(fr *c03Frame, v ssa.Value, d int)
+	walk = func(fr *c03Frame, v ssa.Value, d int) {
+		for _, o := range origins(fr.fn, v) {
+			k := c03Leaf{fr, o}
+			if seen[k] {
+				continue
+			}
+			seen[k] = true
+			if d > 12 {
+				out = append(out, k)
+				continue
+			}
+			if call, idx := originCall(o); call != nil {
+				if g := calleeFn(call); g != nil && (stop == nil || !stop(g)) {
+					if sub := fr.enter(call); sub != nil {
+						n := 0
+						for _, rp := range c03ValueReturns(fr.fn, call, g) {
+							if idx < len(rp.Ret.Results) {
+								n++
+								v := rp.Ret.Results[idx]
+								if phi, ok := v.(*ssa.Phi); ok && rp.Pred != nil && phi.Block() == rp.Ret.Block() {
+									for k, pb := range phi.Block().Preds {
+										if pb == rp.Pred {
+											v = phi.Edges[k]
+										}
+									}
+								}
+								walk(sub, v, d+1)
+							}
+						}
+						if n > 0 {
+							continue
+						}
+					}
+				}
+			}
+			if par, ok := o.(*ssa.Parameter); ok && fr.call != nil {
+				if i := c03ParamIndex(fr.fn, par); i >= 0 && i < len(fr.call.Common().Args) && !fr.call.Common().IsInvoke() {
+					walk(fr.up, fr.call.Common().Args[i], d+1)
+					continue
+				}
+			}
+			// load of a captured variable: the values stored into the cell by the enclosing function / this closure
+			if ld, ok := o.(*ssa.UnOp); ok && ld.Op == token.MUL && fr.call != nil {
+				if fv, ok := ld.X.(*ssa.FreeVar); ok {
+					if mc, ok := fr.call.Common().Value.(*ssa.MakeClosure); ok {
+						n := 0
+						for i, q := range fr.fn.FreeVars {
+							if q != fv || i >= len(mc.Bindings) {
+								continue
+							}
+							if al, ok := mc.Bindings[i].(*ssa.Alloc); ok {
+								for _, r := range *al.Referrers() {
+									if st, ok := r.(*ssa.Store); ok && st.Addr == al {
+										n++
+										walk(fr.up, st.Val, d+1)
+									}
+								}
+							}
+						}
+						for _, r := range *fv.Referrers() {
+							if st, ok := r.(*ssa.Store); ok && st.Addr == ssa.Value(fv) {
+								n++
+								walk(fr, st.Val, d+1)
+							}
+						}
+						if n > 0 {
+							continue
+						}
+					}
+				}
+			}
+			out = append(out, k)
+		}
+	}
+	walk(fr, v, 0)
+	return out
+}
+
+// c03Resolve looks through what carries a value unchanged across helpers: conversions, a parameter of
+// a followed helper (the caller's argument), a call of a value helper with a single return statement
+// (its returned expression). keep(g) leaves calls of g alone.
+func c03Resolve(fr *c03Frame, v ssa.Value, keep func(*ssa.Function) bool) (*c03Frame, ssa.Value) {
+	for i := 0; i < 16; i++ {
+		v = stripConv(v)
+		if cv, ok := v.(*ssa.Convert); ok {
+			if _, isC := cv.X.(*ssa.Const); !isC && isBasic(cv.X.Type()) && isBasic(cv.Type()) {
+				v = cv.X
+				continue
+			}
+		}
+		if par, ok := v.(*ssa.Parameter); ok && fr.call != nil && !fr.call.Common().IsInvoke() {
+			if k := c03ParamIndex(fr.fn, par); k >= 0 && k < len(fr.call.Common().Args) {
+				fr, v = fr.up, fr.call.Common().Args[k]
+				continue
+			}
+		}
+		call, idx := originCall(v)
+		if call == nil {
+			return fr, v
+		}
+		g := calleeFn(call)
+		if g == nil || (keep != nil && keep(g)) || !c03SamePkg(g, fr.root()) {
+			return fr, v // (only helpers of the analysed function's own package are looked through)
+		}
+		sub := fr.enter(call)
+		if sub == nil {
+			return fr, v
+		}
+		var rets []*ssa.Return
+		for _, b := range g.Blocks {
+			if len(b.Instrs) > 0 {
+				if r, ok := b.Instrs[len(b.Instrs)-1].(*ssa.Return); ok {
+					rets = append(rets, r)
+				}
+			}
+		}
+		if len(rets) != 1 || idx >= len(rets[0].Results) {
+			return fr, v
+		}
+		fr, v = sub, rets[0].Results[idx]
+	}
+	return fr, v
+}
+
+// c03SameAs returns a predicate "value v of frame fr is value want of frame root" (parameters of
+// helpers mapped to their arguments, single-return value helpers looked through).
+func c03SameAs(root *c03Frame, want ssa.Value) func(fr *c03Frame, v ssa.Value) bool {
+	return func(fr *c03Frame, v ssa.Value) bool {
+		rf, rv := c03Resolve(fr, v, nil)
+		return rf == root && rv == stripConv(want)
+	}
+}
+
+// c03ReturnedValue: the single value (conversions stripped) every return of fn hands back as result i.
+func c03ReturnedValue(fn *ssa.Function, i int) ssa.Value {
+	var out ssa.Value
+	for _, b := range fn.Blocks {
+		if len(b.Instrs) == 0 {
+			continue
+		}
+		ret, ok := b.Instrs[len(b.Instrs)-1].(*ssa.Return)
+		if !ok || i >= len(ret.Results) {
+			continue
+		}
+		v := stripConv(ret.Results[i])
+		if out != nil && out != v {
+			return nil
+		}
+		out = v
+	}
+	return out
+}
+
+// c03Prog is the loaded program (set by handshakeAnchors; the return classification needs it).
+var c03Prog *Prog
+
+// c03ValueReturns: the returns of value helper g whose results the caller of call (in fn) goes on to
+// use. When g also returns an error that the caller tests (or hands on), the values g returns next to
+// a non-nil error (`return 0, err`) are not used and do not count as origins.
+func c03ValueReturns(fn *ssa.Function, call ssa.CallInstruction, g *ssa.Function) []RetPoint {
+	var all []RetPoint
+	if c03Prog != nil {
+		all = c03Prog.returnsOf(g)
+	} else {
+		for _, b := range g.Blocks {
+			if len(b.Instrs) > 0 {
+				if ret, ok := b.Instrs[len(b.Instrs)-1].(*ssa.Return); ok {
+					all = append(all, RetPoint{Ret: ret, Class: "maybe"})
+				}
+			}
+		}
+	}
+	v := call.Value()
+	if v == nil || len(errResults(v)) == 0 {
+		return all
+	}
+	if _, _, checked := callErrEdges(fn, v); !checked && !c03ErrReturned(call) {
+		return all
+	}
+	var out []RetPoint
+	for _, rp := range all {
+		if rp.Class != "error" {
+			out = append(out, rp)
+		}
+	}
+	if len(out) == 0 {
+		return all
+	}
+	return out
+}
+
+// c03StoreAt is a store found in a frame.
+type c03StoreAt struct {
+	fr *c03Frame
+	st *ssa.Store
+}
+
+// c03ReachStores lists the stores to field f in fr.fn and in the same-package helpers it reaches by
+// static calls (effect helper: "fn stores X" may happen in a callee of fn). skip(g) excludes functions
+// the rule treats separately.
+func c03ReachStores(fr *c03Frame, f *types.Var, skip func(*ssa.Function) bool) []c03StoreAt {
+	var out []c03StoreAt
+	seenFn := map[*ssa.Function]bool{}
+	var walk func(fr *c03Frame)
+	walk = func(fr *c03Frame) {
+		if seenFn[fr.fn] {
+			return
+		}
+		seenFn[fr.fn] = true
+		for _, st := range c03StoresTo(fr.fn, f) {
+			out = append(out, c03StoreAt{fr, st})
+		}
+		allInstrs(fr.fn, func(_ *ssa.BasicBlock, _ int, in ssa.Instruction) {
+			call, ok := in.(ssa.CallInstruction)
+			if !ok {
+				return
+			}
+			g := calleeFn(call)
+			if g == nil || !c03SamePkg(g, fr.root()) || (skip != nil && skip(g)) {
+				return
+			}
+			if sub := fr.enter(call); sub != nil {
+				walk(sub)
+			}
+		})
+	}
+	walk(fr)
+	return out
+}
+
+// c03CallAt is a call found in a frame.
+type c03CallAt struct {
+	fr   *c03Frame
+	call ssa.CallInstruction
+}
+
+// c03ReachCalls lists the static calls of g in fr.fn and in the same-package helpers it reaches (the
+// call a rule requires "in function f" may sit in a helper of f). It does not descend into g itself.
+func c03ReachCalls(fr *c03Frame, g *ssa.Function, skip func(*ssa.Function) bool) []c03CallAt {
+	return c03ReachCallsWhere(fr, func(call ssa.CallInstruction) bool { return calleeFn(call) == g }, skip)
+}
+
+// c03ReachCallsObj: the same for calls of the function / method object o (a callee of another package).
+func c03ReachCallsObj(fr *c03Frame, o types.Object, skip func(*ssa.Function) bool) []c03CallAt {
+	return c03ReachCallsWhere(fr, func(call ssa.CallInstruction) bool {
+		co := calleeObj(call)
+		return co != nil && o != nil && types.Object(co) == o
+	}, skip)
+}
+
+func c03ReachCallsWhere(fr *c03Frame, match func(ssa.CallInstruction) bool, skip func(*ssa.Function) bool) []c03CallAt {
+	var out []c03CallAt
+	seenFn := map[*ssa.Function]bool{}
+	var walk func(fr *c03Frame)
+	walk = func(fr *c03Frame) {
+		if seenFn[fr.fn] {
+			return
+		}
+		seenFn[fr.fn] = true
+		allInstrs(fr.fn, func(_ *ssa.BasicBlock, _ int, in ssa.Instruction) {
+			call, ok := in.(ssa.CallInstruction)
+			if !ok {
+				return
+			}
+			if match(call) {
+				out = append(out, c03CallAt{fr, call})
+				return
+			}
+			h := calleeFn(call)
+			if h == nil || !c03SamePkg(h, fr.root()) || (skip != nil && skip(h)) {
+				return
+			}
+			if sub := fr.enter(call); sub != nil {
+				walk(sub)
+			}
+		})
+	}
+	walk(fr)
+	return out
+}
+
+// c03ErrReturned: the error result of the call is handed straight to a return of its function.
+func c03ErrReturned(cs ssa.CallInstruction) bool {
+	v := cs.Value()
+	if v == nil {
+		return false
+	}
+	for _, e := range errResults(v) {
+		for _, r := range *e.Referrers() {
+			if _, ok := r.(*ssa.Return); ok {
+				return true
+			}
+		}
+	}
+	return false
+}
+
+// ---------------------------------------------------------------------------
+// must-pass with helper following (memoised; the shared satisfyingCuts explores every module callee of
+// every call, which is too slow for the big handshake functions)
+
+// c03MustPass decides "every path to a success return of fn establishes fact F". What establishes F is
+// described once, independently of where it is written:
+//   - atom: a branch condition (negations stripped) whose being true / false establishes F;
+//   - edges / instrs: further edges and instructions of a function that establish F;
+//
+// and the machinery finds it
+//   - inline in the function (`if cond`, `switch`), also when the condition is materialised in a local
+//     boolean first (`ok := a && b; if !ok`: per incoming edge of the phi, Cuts.AddVia);
+//   - behind a boolean helper (`if helper(args)`): the true (false) edge establishes F when every
+//     `return true` (`return false`) of the helper - a constant, or a result that is itself such a
+//     condition - is only reached through F, parameters mapped to the call's arguments;
+//   - behind an error-returning / plain helper of the same package: the nil-error edge of the call (the
+//     call itself when it returns no error) establishes F when every success return of the helper
+//     passes F.
+type c03MustPass struct {
+	c      *Ctx
+	pkgOf  *ssa.Function                                     // error-returning helpers are inlined only within this function's package
+	atom   func(fr *c03Frame, a Atom) (onTrue, onFalse bool) // optional
+	edges  func(f *ssa.Function) []Edge                      // satisfying edges of f (optional)
+	instrs func(fr *c03Frame) []ssa.Instruction              // satisfying instructions of fr.fn (optional)
+	calls  func(fr *c03Frame, call ssa.CallInstruction) bool // calls whose success establishes F (optional)
+	all    bool                                              // the obligation is on every return of a helper, not only its success returns
+	memo   map[string]int                                    // holds: 1 active, 2 holds, 3 does not hold
+	bmemo  map[string]int                                    // boolHelper
+	cmemo  map[string]*Cuts
+}
+
+// atomOf asks the rule's recogniser about condition value v taken as a boolean atom.
+func (m *c03MustPass) atomOf(fr *c03Frame, v ssa.Value) (onTrue, onFalse bool) {
+	if m.atom == nil {
+		return false, false
+	}
+	a := condAtom(v)
+	neg := a.Neg
+	a.Neg = false
+	t, f := m.atom(fr, a)
+	if neg {
+		t, f = f, t
+	}
+	return t, f
+}
+
+// implies: boolean value v being `want` establishes F.
+func (m *c03MustPass) implies(fr *c03Frame, v ssa.Value, want bool, d int) bool {
+	if d > 8 || v == nil {
+		return false
+	}
+	if t, f := m.atomOf(fr, v); (want && t) || (!want && f) {
+		return true
+	}
+	switch x := v.(type) {
+	case *ssa.UnOp:
+		if x.Op == token.NOT {
+			return m.implies(fr, x.X, !want, d+1)
+		}
+		if x.Op == token.MUL {
+			if al, ok := x.X.(*ssa.Alloc); ok {
+				// local cell: every value stored that can be `want` must imply F
+				n := 0
+				for _, r := range *al.Referrers() {
+					if st, ok := r.(*ssa.Store); ok && st.Addr == al {
+						if b, isC := constBool(st.Val); isC {
+							if b == want {
+								return false
+							}
+							continue
+						}
+						if !m.implies(fr, st.Val, want, d+1) {
+							return false
+						}
+						n++
+					}
+				}
+				return n > 0
+			}
+		}
+	case *ssa.Phi:
+		n := 0
+		for i, e := range x.Edges {
+			if b, isC := constBool(e); isC {
+				if b != want {
+					continue
+				}
+				// the constant arrives only over paths that established F already
+				if len(x.Block().Instrs) > 0 && findPath(entryPoint(fr.fn), Target{Instr: x.Block().Instrs[0], Pred: x.Block().Preds[i]}, m.baseCuts(fr)) == nil {
+					n++
+					continue
+				}
+				return false
+			}
+			if !m.implies(fr, e, want, d+1) {
+				// ... or this incoming value, too, arrives only over paths that established F
+				if len(x.Block().Instrs) > 0 && findPath(entryPoint(fr.fn), Target{Instr: x.Block().Instrs[0], Pred: x.Block().Preds[i]}, m.baseCuts(fr)) == nil {
+					n++
+					continue
+				}
+				return false
+			}
+			n++
+		}
+		return n > 0
+	case *ssa.Call:
+		if sub := fr.enter(x); sub != nil {
+			return m.boolHelper(sub, 0, want)
+		}
+	case *ssa.Extract:
+		// `done, err := helper()`: the boolean is one of several results
+		if call, ok := x.Tuple.(*ssa.Call); ok {
+			if sub := fr.enter(call); sub != nil {
+				return m.boolHelper(sub, x.Index, want)
+			}
+		}
+	case *ssa.Parameter:
+		if fr.call != nil && !fr.call.Common().IsInvoke() {
+			if i := c03ParamIndex(fr.fn, x); i >= 0 && i < len(fr.call.Common().Args) {
+				return m.implies(fr.up, fr.call.Common().Args[i], want, d+1)
+			}
+		}
+	}
+	return false
+}
+
+// boolHelper: the helper of frame fr returning `want` as its idx-th result establishes F.
+func (m *c03MustPass) boolHelper(fr *c03Frame, idx int, want bool) bool {
+	g := fr.fn
+	res := g.Signature.Results()
+	if idx >= res.Len() {
+		return false
+	}
+	if bt, ok := res.At(idx).Type().Underlying().(*types.Basic); !ok || bt.Info()&types.IsBoolean == 0 {
+		return false
+	}
+	if m.bmemo == nil {
+		m.bmemo = map[string]int{}
+	}
+	key := fr.key() + fmt.Sprint(idx, want)
+	switch m.bmemo[key] {
+	case 1, 3:
+		return false
+	case 2:
+		return true
+	}
+	m.bmemo[key] = 1
+	ok := true
+	var cuts *Cuts
+	for _, b := range g.Blocks {
+		if len(b.Instrs) == 0 {
+			continue
+		}
+		ret, isRet := b.Instrs[len(b.Instrs)-1].(*ssa.Return)
+		if !isRet {
+			continue
+		}
+		type alt struct {
+			v    ssa.Value
+			pred *ssa.BasicBlock
+		}
+		alts := []alt{{ret.Results[idx], nil}}
+		if phi, isPhi := ret.Results[idx].(*ssa.Phi); isPhi && phi.Block() == b {
+			alts = alts[:0]
+			for i, e := range phi.Edges {
+				alts = append(alts, alt{e, b.Preds[i]})
+			}
+		}
+		for _, a := range alts {
+			if k, isC := constBool(a.v); isC && k != want {
+				continue
+			}
+			if _, isC := constBool(a.v); !isC && m.implies(fr, a.v, want, 0) {
+				continue
+			}
+			if cuts == nil {
+				cuts = m.cutsF(fr)
+			}
+			if findPath(entryPoint(g), Target{Instr: ret, Pred: a.pred}, cuts) != nil {
+				ok = false
+			}
+		}
+	}
+	if ok {
+		m.bmemo[key] = 2
+	} else {
+		m.bmemo[key] = 3
+	}
+	return ok
+}
+
+// baseCuts: the edges of fr.fn whose own condition atom establishes F (no phis, no helpers).
+func (m *c03MustPass) baseCuts(fr *c03Frame) *Cuts {
 	cuts := newCuts()
 	if m.edges != nil {
-		cuts.AddEdges(m.edges(f)...)
+		cuts.AddEdges(m.edges(fr.fn)...)
 	}
+	for _, b := range fr.fn.Blocks {
+		ifi := blockIf(b)
+		if ifi == nil {
+			continue
+		}
+		t, f := m.atomOf(fr, ifi.Cond)
+		if t {
+			cuts.AddEdges(Edge{b, 0})
+		}
+		if f {
+			cuts.AddEdges(Edge{b, 1})
+		}
+	}
+	return cuts
+}
+
+// cuts: the edges/instructions of f (analysed on its own) that establish F.
+func (m *c03MustPass) cuts(f *ssa.Function, depth int) *Cuts { return m.cutsF(c03Root(f)) }
+
+// cutsF: the edges/instructions of fr.fn that establish F, see the type comment.
+func (m *c03MustPass) cutsF(fr *c03Frame) *Cuts {
+	if m.cmemo == nil {
+		m.cmemo = map[string]*Cuts{}
+	}
+	key := fr.key()
+	if c, ok := m.cmemo[key]; ok {
+		return c
+	}
+	f := fr.fn
+	cuts := m.baseCuts(fr)
+	m.cmemo[key] = cuts // a helper reached again below sees the direct edges only
 	if m.instrs != nil {
-		cuts.AddInstrs(m.instrs(f)...)
+		cuts.AddInstrs(m.instrs(fr)...)
+	}
+	for _, b := range f.Blocks {
+		ifi := blockIf(b)
+		if ifi == nil {
+			continue
+		}
+		a := condAtom(ifi.Cond)
+		if a.Op != token.ILLEGAL {
+			continue
+		}
+		tE, fE := Edge{b, 0}, Edge{b, 1}
+		if a.Neg {
+			tE, fE = fE, tE
+		}
+		if phi, ok := a.X.(*ssa.Phi); ok && phi.Block() == b {
+			// local boolean: decided per incoming edge
+			for i, e := range phi.Edges {
+				if _, isC := constBool(e); isC {
+					continue // findPath prunes the infeasible successor itself
+				}
+				if m.implies(fr, e, true, 0) {
+					cuts.AddVia(b.Preds[i], tE)
+				}
+				if m.implies(fr, e, false, 0) {
+					cuts.AddVia(b.Preds[i], fE)
+				}
+			}
+			continue
+		}
+		if m.implies(fr, a.X, true, 0) {
+			cuts.AddEdges(tE)
+		}
+		if m.implies(fr, a.X, false, 0) {
+			cuts.AddEdges(fE)
+		}
 	}
 	allInstrs(f, func(_ *ssa.BasicBlock, _ int, in ssa.Instruction) {
 		call, ok := in.(*ssa.Call)
 		if !ok {
 			return
 		}
+		if m.calls != nil && m.calls(fr, call) {
+			c03AddCallSuccess(f, call, cuts)
+			return
+		}
 		g := calleeFn(call)
 		if g == nil || g == f || !c03SamePkg(g, m.pkgOf) {
 			return
 		}
-		if m.holds(g, depth-1) {
-			c03AddCallSuccess(f, call, cuts)
+		if sub := fr.enter(call); sub != nil && m.holdsF(sub) {
+			if m.all {
+				cuts.AddInstrs(call) // established on every return of the helper, whatever it returns
+			} else {
+				c03AddCallSuccess(f, call, cuts)
+			}
 		}
 	})
 	return cuts
 }
 
 // holds: every (possibly) success return of f passes a satisfying edge/instruction.
-func (m *c03MustPass) holds(f *ssa.Function, depth int) bool {
+func (m *c03MustPass) holds(f *ssa.Function, depth int) bool { return m.holdsF(c03Root(f)) }
+
+func (m *c03MustPass) holdsF(fr *c03Frame) bool {
+	f := fr.fn
 	if m.memo == nil {
-		m.memo = map[*ssa.Function]int{}
+		m.memo = map[string]int{}
 	}
-	switch m.memo[f] {
+	key := fr.key()
+	switch m.memo[key] {
 	case 1:
 		return false
 	case 2:
@@ -464,13 +1192,16 @@ func (m *c03MustPass) holds(f *ssa.Function, depth int) bool {
 	case 3:
 		return false
 	}
-	if depth < 0 || f.Blocks == nil {
+	if f.Blocks == nil {
 		return false
 	}
-	m.memo[f] = 1
-	cuts := m.cuts(f, depth)
+	m.memo[key] = 1
+	cuts := m.cutsF(fr)
 	res := true
 	tg := m.c.c03Success(f)
+	if m.all {
+		tg = m.c.returnsOf(f)
+	}
 	if len(tg) == 0 {
 		res = false // a function that cannot succeed satisfies nothing
 	}
@@ -481,11 +1212,91 @@ func (m *c03MustPass) holds(f *ssa.Function, depth int) bool {
 		}
 	}
 	if res {
-		m.memo[f] = 2
+		m.memo[key] = 2
 	} else {
-		m.memo[f] = 3
+		m.memo[key] = 3
 	}
 	return res
+}
+
+// c03AfterSuccess: the points of fn at which call cs is known to have returned without error: the
+// targets of its nil-error edges when the error is tested, the point after the call when its error is
+// returned unchanged or it has none.
+func c03AfterSuccess(fn *ssa.Function, cs ssa.CallInstruction) []Point {
+	v := cs.Value()
+	if v != nil && len(errResults(v)) > 0 {
+		if succ, _, checked := callErrEdges(fn, v); checked {
+			var out []Point
+			for _, e := range succ {
+				if len(e.To().Instrs) > 0 {
+					out = append(out, Point{e.To(), 0})
+				}
+			}
+			return out
+		}
+		if !c03ErrReturned(cs) {
+			return nil
+		}
+	}
+	return []Point{after(cs)}
+}
+
+// afterMustPass: from the given points of fr.fn every way to a success return passes F - in fr.fn, or,
+// when fr.fn is a helper and can return successfully without it, in its caller after the helper's
+// call succeeded (and so on up the chain). Returns a witness path, nil when the obligation holds.
+func (m *c03MustPass) afterMustPass(fr *c03Frame, starts []Point) []*ssa.BasicBlock {
+	cuts := m.cutsF(fr)
+	var wit []*ssa.BasicBlock
+	for _, st := range starts {
+		for _, t := range m.c.c03Success(fr.fn) {
+			if p := findPath(st, t.Target(), cuts); p != nil {
+				wit = p
+			}
+		}
+	}
+	if wit == nil || fr.up == nil {
+		return wit
+	}
+	up := c03AfterSuccess(fr.up.fn, fr.call)
+	if len(up) == 0 {
+		return wit
+	}
+	return m.afterMustPass(fr.up, up)
+}
+
+// c03SameValue: value a of frame fa is value b of frame fb: the same SSA value, or the same leaf
+// origins once helpers' parameters are mapped to the arguments they were called with.
+func c03SameValue(fa *c03Frame, a ssa.Value, fb *c03Frame, b ssa.Value) bool {
+	return c03SameValueStop(fa, a, fb, b, nil)
+}
+
+func c03SameValueStop(fa *c03Frame, a ssa.Value, fb *c03Frame, b ssa.Value, stop func(*ssa.Function) bool) bool {
+	if fa == fb && stripConv(a) == stripConv(b) {
+		return true
+	}
+	la, lb := c03OriginsF(fa, stripConv(a), stop), c03OriginsF(fb, stripConv(b), stop)
+	if len(la) == 0 || len(la) != len(lb) {
+		return false
+	}
+	set := map[c03Leaf]bool{}
+	for _, l := range lb {
+		set[l] = true
+	}
+	for _, l := range la {
+		if !set[l] {
+			return false
+		}
+	}
+	return true
+}
+
+// dominates: every way to instruction in of fr.fn establishes F first - inside fr.fn, or, when fr.fn
+// is a helper, on every way to the call that entered it (and so on up the chain).
+func (m *c03MustPass) dominates(fr *c03Frame, in ssa.Instruction) bool {
+	if findPath(entryPoint(fr.fn), Target{Instr: in}, m.cutsF(fr)) == nil {
+		return true
+	}
+	return fr.up != nil && m.dominates(fr.up, fr.call)
 }
 
 // check reports one obligation per success return of fn (construct fn#returnN+suffix).
@@ -528,32 +1339,14 @@ func c03Construct(fn *ssa.Function, ord int, suffix string) string {
 
 func c03Itoa(i int) string { return strconv.Itoa(i) }
 
-// encKnownEdges: edges of f on which the STREAM is known to be encrypting: the nil-error edges of
-// SetSymmetricKey, the true edges of a test of a.stream.IsEncrypted(), and the true edges of a test
-// of negotiation.Encryption loaded right after it was assigned IsEncrypted() in the same block.
-func (A *c03Anchors) encKnownEdges(f *ssa.Function) []Edge {
+// setKeyEdges: the nil-error edges of SetSymmetricKey in f (the stream is known to encrypt there). The
+// other way to know it - a true test of a.stream.IsEncrypted() or of the flag just copied from it - is
+// a condition atom (isStreamState).
+func (A *c03Anchors) setKeyEdges(f *ssa.Function) []Edge {
 	var out []Edge
 	for _, cs := range callsIn(f, A.setKey.Object()) {
 		succ, _, _ := callErrEdges(f, cs.Value())
 		out = append(out, succ...)
-	}
-	for _, b := range f.Blocks {
-		ifi := blockIf(b)
-		if ifi == nil {
-			continue
-		}
-		a := condAtom(ifi.Cond)
-		if a.Op != token.ILLEGAL {
-			continue
-		}
-		if !A.isStreamState(f, a.X) {
-			continue
-		}
-		if a.Neg {
-			out = append(out, Edge{b, 1})
-		} else {
-			out = append(out, Edge{b, 0})
-		}
 	}
 	return out
 }
@@ -564,7 +1357,9 @@ func (A *c03Anchors) isSyncValue(f *ssa.Function, v ssa.Value) bool {
 }
 
 // isStreamState: v is IsEncrypted(), or a load of negotiation.Encryption that directly follows (same
-// block, no call or other store in between) a store of IsEncrypted() to that field.
+// block, no other call or store in between) a store of IsEncrypted() to that field - written inline,
+// or performed by a same-package helper the negotiation is handed to that leaves the flag freshly
+// copied from the stream on every return (A.enc, the summaries of C03-R3).
 func (A *c03Anchors) isStreamState(f *ssa.Function, v ssa.Value) bool {
 	if A.isSyncValue(f, v) {
 		return true
@@ -586,69 +1381,68 @@ func (A *c03Anchors) isStreamState(f *ssa.Function, v ssa.Value) bool {
 				return sfa.X == fa.X && A.isSyncValue(f, x.Val)
 			}
 		case ssa.CallInstruction:
-			return false
+			g := calleeFn(x)
+			if _, isCall := x.(*ssa.Call); !isCall || A.enc == nil || g == nil || g == f || !c03SamePkg(g, A.setup) {
+				return false
+			}
+			passed := false
+			for _, a := range x.Common().Args {
+				if a == fa.X {
+					passed = true
+				}
+			}
+			sum := A.enc.summary(g, InlineDepth)
+			return passed && sum.syncs && len(errResults(x.Value())) == 0
 		}
 	}
 	return false
 }
 
-// c03SubsetEdges finds, in fn, tests that the peer's selection resp is inside the mask that was sent:
-// (resp &^ mask) ==/!= 0, (resp & ^mask) ==/!= 0, (resp & mask) ==/!= resp, and the membership form
+// c03SubsetAtom recognises, in frame fr, a test that the peer's selection is inside the mask that was
+// sent: (resp &^ mask) ==/!= 0, (resp & ^mask) ==/!= 0, (resp & mask) ==/!= resp, and the membership form
 // (resp & mask) ==/!= 0 (sufficient because bitmaskToAuthMethod maps exact single-bit constants only,
-// C10-R6). Returns the edges on which the selection is known to be offered.
-func c03SubsetEdges(fn *ssa.Function, resp ssa.Value, masks map[ssa.Value]bool) []Edge {
-	isResp := func(v ssa.Value) bool { return stripConv(v) == resp }
-	isMask := func(v ssa.Value) bool { return masks[stripConv(v)] }
+// C10-R6). a is the condition atom with its negation stripped; the result tells on which outcome the
+// selection is known to be offered. isResp / isMask identify the two values in any frame (a helper
+// sees them as parameters).
+func c03SubsetAtom(fr *c03Frame, a Atom, isResp, isMask func(fr *c03Frame, v ssa.Value) bool) (onTrue, onFalse bool) {
+	if a.Op != token.EQL && a.Op != token.NEQ {
+		return false, false
+	}
 	isNotMask := func(v ssa.Value) bool {
 		u, ok := stripConv(v).(*ssa.UnOp)
-		return ok && u.Op == token.XOR && isMask(u.X)
+		return ok && u.Op == token.XOR && isMask(fr, u.X)
 	}
-	var out []Edge
-	for _, b := range fn.Blocks {
-		ifi := blockIf(b)
-		if ifi == nil {
+	r := func(v ssa.Value) bool { return isResp(fr, v) }
+	m := func(v ssa.Value) bool { return isMask(fr, v) }
+	for _, pair := range [][2]ssa.Value{{a.X, a.Y}, {a.Y, a.X}} {
+		bo, ok := stripConv(pair[0]).(*ssa.BinOp)
+		if !ok {
 			continue
 		}
-		a := condAtom(ifi.Cond)
-		if a.Op != token.EQL && a.Op != token.NEQ {
+		other := pair[1]
+		zero := false
+		if k, ok := constInt(other); ok && k == 0 {
+			zero = true
+		}
+		// onEq: the selection is offered on the outcome where the comparison is "equal"
+		var onEq, found bool
+		switch {
+		case bo.Op == token.AND_NOT && r(bo.X) && m(bo.Y) && zero:
+			onEq, found = true, true
+		case bo.Op == token.AND && ((r(bo.X) && isNotMask(bo.Y)) || (r(bo.Y) && isNotMask(bo.X))) && zero:
+			onEq, found = true, true
+		case bo.Op == token.AND && ((r(bo.X) && m(bo.Y)) || (r(bo.Y) && m(bo.X))) && r(other):
+			onEq, found = true, true
+		case bo.Op == token.AND && ((r(bo.X) && m(bo.Y)) || (r(bo.Y) && m(bo.X))) && zero:
+			onEq, found = false, true
+		}
+		if !found {
 			continue
 		}
-		for _, pair := range [][2]ssa.Value{{a.X, a.Y}, {a.Y, a.X}} {
-			bo, ok := stripConv(pair[0]).(*ssa.BinOp)
-			if !ok {
-				continue
-			}
-			other := pair[1]
-			zero := false
-			if k, ok := constInt(other); ok && k == 0 {
-				zero = true
-			}
-			// onEq: the selection is offered on the edge where the comparison is "equal"
-			var onEq, found bool
-			switch {
-			case bo.Op == token.AND_NOT && isResp(bo.X) && isMask(bo.Y) && zero:
-				onEq, found = true, true
-			case bo.Op == token.AND && ((isResp(bo.X) && isNotMask(bo.Y)) || (isResp(bo.Y) && isNotMask(bo.X))) && zero:
-				onEq, found = true, true
-			case bo.Op == token.AND && ((isResp(bo.X) && isMask(bo.Y)) || (isResp(bo.Y) && isMask(bo.X))) && isResp(other):
-				onEq, found = true, true
-			case bo.Op == token.AND && ((isResp(bo.X) && isMask(bo.Y)) || (isResp(bo.Y) && isMask(bo.X))) && zero:
-				onEq, found = false, true
-			}
-			if !found {
-				continue
-			}
-			eqEdge := Edge{b, 0}
-			neEdge := Edge{b, 1}
-			if (a.Op == token.NEQ) != a.Neg {
-				eqEdge, neEdge = neEdge, eqEdge
-			}
-			if onEq {
-				out = append(out, eqEdge)
-			} else {
-				out = append(out, neEdge)
-			}
+		if onEq == (a.Op == token.EQL) {
+			return true, false
 		}
+		return false, true
 	}
-	return out
+	return false, false
 }
